@@ -80,7 +80,14 @@ func (s *badgerStore) CheckAndSaveNonce(ID string, nonce int64) error {
 		}
 
 		if s.nonceExpire > 0 {
-			return setExpiringItem(txn, key, &nonce, s.nonceExpire)
+			// The record must outlive the nonce's own freshness window,
+			// otherwise a nonce stamped ahead of our clock could be replayed
+			// once the record expired. (Badger TTLs have 1s granularity.)
+			ttl := time.Unix(0, nonce).Add(s.nonceExpire + time.Second).Sub(time.Now())
+			if ttl < s.nonceExpire {
+				ttl = s.nonceExpire
+			}
+			return setExpiringItem(txn, key, &nonce, ttl)
 		}
 		return setItem(txn, key, &nonce)
 	})
